@@ -97,9 +97,18 @@ func (a *Allocation) AddPermission(perms *Permission) {
 	a.permissionsLock.RUnlock()
 
 	if ok {
-		existedPermission.refresh(perms.timeout)
+		// Refresh under the lock the expiry takes: either the refresh comes
+		// first and the firing timer finds a deadline in the future, or the
+		// expiry has removed the permission and it is installed anew below. A
+		// refresh answered with success is never followed by the removal.
+		a.permissionsLock.Lock()
+		if a.permissions[fingerprint] == existedPermission {
+			existedPermission.refresh(perms.timeout)
+			a.permissionsLock.Unlock()
 
-		return
+			return
+		}
+		a.permissionsLock.Unlock()
 	}
 
 	perms.allocation = a
@@ -145,6 +154,29 @@ func (a *Allocation) RemovePermission(addr net.Addr) {
 
 	if a.eventHandler.OnPermissionDeleted != nil {
 		if u, ok := addr.(*net.UDPAddr); ok {
+			a.eventHandler.OnPermissionDeleted(a.fiveTuple.SrcAddr, a.fiveTuple.DstAddr,
+				a.fiveTuple.Protocol.String(), a.userID, a.realm,
+				a.RelayAddr, u.IP)
+		}
+	}
+}
+
+// expirePermission is the permission timer's callback: it removes perm unless
+// a refresh has moved its deadline meanwhile (the timer has then been re-armed)
+// or the entry for its address is no longer this permission. Check and removal
+// happen in one critical section with the refresh in AddPermission.
+func (a *Allocation) expirePermission(perm *Permission) {
+	a.permissionsLock.Lock()
+	defer a.permissionsLock.Unlock()
+
+	fingerprint := ipnet.FingerprintAddr(perm.Addr)
+	if a.permissions[fingerprint] != perm || time.Now().Before(perm.expiresAt) {
+		return
+	}
+	delete(a.permissions, fingerprint)
+
+	if a.eventHandler.OnPermissionDeleted != nil {
+		if u, ok := perm.Addr.(*net.UDPAddr); ok {
 			a.eventHandler.OnPermissionDeleted(a.fiveTuple.SrcAddr, a.fiveTuple.DstAddr,
 				a.fiveTuple.Protocol.String(), a.userID, a.realm,
 				a.RelayAddr, u.IP)
